@@ -305,6 +305,9 @@ func (g *gen) boolOperand(d int) Expr {
 		if u, ok := e.(Un); ok && u.Op == "not" {
 			continue
 		}
+		if b, ok := e.(Bin); ok && (b.Op == "and" || b.Op == "or") {
+			continue // nested logical operands hit the same compiler defect: `x = (a and b) and c` leaves x unchanged when (a and b) is false
+		}
 		return e
 	}
 	return Bin{"<", g.numVar(), Num{5}}
